@@ -13,7 +13,7 @@ import (
 	"ivgsa/internal/sym"
 )
 
-func init() { register("C02", ruleC02_1, ruleC02_rest) }
+func init() { register("C02", ruleC02_1, ruleC02_rest, ruleC02_shared) }
 
 // parseLayer computes the functions of the parse layer: everything reachable
 // from the three decode entry points without going through an invoke on
